@@ -12,7 +12,7 @@ validate = _E.validate
 TABLE = [
     ("tsp", None, 4, 5), ("atsp", None, 4, 5), ("cvrp", None, 3, 4), ("sdvrp", None, 2, 3), ("op", None, 3, 4), ("pctsp", None, 3, 4),
     ("spctsp", None, 3, 4), ("pdp", "free", 4, 6), ("pdp", "depot", 4, 6), ("mtsp", "minmax", 3, 4), ("svrp", None, 3, 4), ("cvrptw", None, 2, 3),
-] + [("mtvrp", v, 2, 3) for v in ("", "O", "B", "L", "TW", "OTW", "OB", "OL", "BL", "BTW", "LTW", "OBL", "OBTW", "OLTW", "BLTW", "OBLTW")] + [("flp", None, 3, 4), ("mcp", None, 3, 3), ("smtwtp", None, 3, 4)]
+] + [("mtvrp", v, 2, 3) for v in ("", "O", "B", "L", "TW", "OTW", "OB", "OL", "BL", "BTW", "LTW", "OBL", "OBTW", "OLTW", "BLTW", "OBLTW")] + [("mtvrp", "TW@2", 2, 3)] + [("flp", None, 3, 4), ("mcp", None, 3, 3), ("smtwtp", None, 3, 4)]
 
 
 def plan(tier, seed):
